@@ -230,6 +230,41 @@ class Ctx:
         except hypothesis.errors.Unsatisfiable as e:
             raise HarnessError(f"generator unsatisfiable in {self.sub.name}: {e}")
 
+    def collect(self, strategy, n: int, label: str = ""):
+        """Draw ``n`` cases from a Hypothesis strategy without running the check (the seed does not
+        depend on the shard, so every shard sees the same list).  Used by expensive sub-checks with
+        small budgets: the list is split over the shards, so the all-minimal first example of a
+        Hypothesis run appears once instead of once per shard.  No shrinking on this path."""
+        import hypothesis
+        from hypothesis import HealthCheck, Phase, given, settings
+
+        out = []
+        hseed = int(hashlib.sha1(f"{self.seed}/{self.sub.name}/{label}/collect".encode()).hexdigest()[:8], 16)
+
+        @hypothesis.seed(hseed)
+        @settings(max_examples=n, database=None, deadline=None, derandomize=False, phases=[Phase.generate],
+                  suppress_health_check=list(HealthCheck), print_blob=False)
+        @given(strategy)
+        def gen(case):
+            out.append(case)
+
+        gen()
+        seen = set()
+        uniq = []
+        for c in out:
+            h = jhash(c)
+            if h not in seen:
+                seen.add(h)
+                uniq.append(c)
+        return uniq
+
+    def given_shared(self, strategy, n_total: int, label: str = ""):
+        cases = self.collect(strategy, n_total, label)
+        self.each(cases[self.shard::self.nshards])
+
+    def total(self, quick: int, thorough: int) -> int:
+        return quick if self.tier == "quick" else thorough
+
     def each(self, cases):
         for c in cases:
             if not self.run_case(c):
